@@ -306,7 +306,8 @@ CaseResult run_md(const RunCtx &ctx, TapeReader &t, unsigned size_hint) {
     }
     if (!ctx.execute) return res;
 
-    // convention check of the independent encoder (dimension 0 is the least significant): harness self-test, not a verdict
+    // convention check of the independent encoder (dimension 0 is the least significant): harness self-test, not a verdict.
+    // It reads the first stored element through begin() (no box test, no skip logic), so a broken range() cannot upset it.
     {
         Pt4 u{0, 0, 0, 0};
         u[0] = 1;
@@ -314,8 +315,7 @@ CaseResult run_md(const RunCtx &ctx, TapeReader &t, unsigned size_hint) {
         v[D - 1] = 1;
         std::vector<Tuple> two{to_tuple<D, T>(v), to_tuple<D, T>(u)};
         Index probe(two.begin(), two.end());
-        auto it = probe.range(to_tuple<D, T>(Pt4{0, 0, 0, 0}), to_tuple<D, T>(Pt4{1, 1, 1, 1}));
-        if (D > 1 && from_tuple<D>(*it) != u) throw HarnessBug("Morton convention of the oracle does not match the library");
+        if (D > 1 && from_tuple<D>(*probe.begin()) != u) throw HarnessBug("Morton convention of the oracle does not match the library");
     }
 
     std::vector<Tuple> tuples;
